@@ -406,6 +406,9 @@ func runHistory(r *Run, in *epochInput, cf *CaseFile, caseID int) historyResult 
 		// does the population hold genomes without a common first gene (no common ancestry)?
 		unrelated := false
 		for _, o := range pop.Organisms {
+			if len(o.Genotype.Genes) == 0 {
+				unrelated = true // a gene-less child of an earlier single-point crossover of unrelated parents lives on
+			}
 			if len(o.Genotype.Genes) > 0 && len(pop.Organisms[0].Genotype.Genes) > 0 &&
 				o.Genotype.Genes[0].InnovationNum != pop.Organisms[0].Genotype.Genes[0].InnovationNum {
 				unrelated = true
